@@ -30,7 +30,7 @@ LEVEL_NOTE = ('trusted: CPython ast (structure modulo ctx and documented docstri
 RULE = ('enum: case = (program, node/slice, form, repetitions) or (context, text, accessor); non-trivial = distinct cases where the '
         'round trip was accepted; states = distinct sources seen; traces = round trips compared')
 ASSUMPTIONS = ['cut and put back run with norm=False (the container may pass through a length Python does not allow), self-replacement with norm=True', 'texts containing a line break are not valid line comments']
-BOUNDS = {'quick': '51 programs, all nodes and slices (<= 4 elements), 6 forms (cut/self x fst/ast/src), repetitions 1-3; docstring texts of length <= 3 (+48 crafted) x 6 contexts; comment texts <= 2 x 4 contexts',
+BOUNDS = {'quick': '51 programs, all nodes and slices (<= 4 elements), 6 forms (cut/self x fst/ast/src), repetitions 1-3; docstring texts of length <= 3 (+48 crafted) x 6 contexts; comment texts <= 2 x 6 contexts',
           'thorough': 'comment texts of length <= 3'}
 
 ALPH = ['a', ' ', '"', "'", '\\', '\n', '\t', '{', '#', 'é', '\x00', '\r']
@@ -291,7 +291,10 @@ def docstr_case(fst, ci, text, res):
 
 
 CMT_CTX = [('x = 1', (('body', 0),)), ('if a:\n    b  # old\nc', (('body', 0), ('body', 0))), ('if a:  # hdr\n    b', (('body', 0),)),
-           ('def f():\n\treturn (1,\n\t\t2)', (('body', 0), ('body', 0)))]
+           ('def f():\n\treturn (1,\n\t\t2)', (('body', 0), ('body', 0))),
+           # last statement two and three block levels down (its comment is part of every enclosing block's extent)
+           ('class C:\n    def m(self):\n        return 1  # old\nz = 0', (('body', 0), ('body', 0), ('body', 0))),
+           ('if a:\n    for i in j:\n        while k:\n            l\nm', (('body', 0), ('body', 0), ('body', 0), ('body', 0)))]
 
 
 def comment_case(fst, ci, text, res):
@@ -303,6 +306,10 @@ def comment_case(fst, ci, text, res):
     res.evals += 1
     res.transitions += 1
     pre = (root.src, O.dump_pos(root.a))
+    from ..explore import warm_caches
+    warm_caches(root)  # the enclosing blocks' extents have been read before (and are cached)
+    for k in range(1, len(path)):
+        node_at(root, path[:k]).own_src()
     try:
         n.put_line_comment(text)
     except Exception as e:  # noqa: BLE001
@@ -330,6 +337,29 @@ def comment_case(fst, ci, text, res):
     if O.dump(ast.parse(root.src)) != O.dump(ast.parse(src)):
         res.fail(cid, 'comment-changed-structure', f'now={root.src!r}', {'accessor': 'comment'}, rep)
         return
+    # every enclosing statement reads back with the new comment: extent, text and standalone source as in a fresh tree
+    fresh = fst.FST(root.src, 'exec')
+    for k in range(1, len(path) + 1):
+        a, b = node_at(root, path[:k]), node_at(fresh, path[:k])
+        ga = (tuple(a.bloc), a.src, a.own_src())
+        gb = (tuple(b.bloc), b.src, b.own_src())
+        if ga != gb:
+            res.fail(cid, 'enclosing-statement-reads-back-stale-after-comment-put',
+                     f'now={root.src!r}\n{O.path_str(path[:k])}: live={ga!r}\nfresh={gb!r}', {'accessor': 'comment'}, rep)
+            return
+    if len(path) > 1:  # cut the outermost enclosing statement and put it back
+        top = node_at(root, path[:1])
+        par, pf = top.parent, top.pfield
+        now = root.src
+        try:
+            piece = top.cut(norm=False)
+            par.put_slice(piece, pf.idx, pf.idx, pf.name, one=True, norm=False)
+        except Exception as e:  # noqa: BLE001
+            res.fail(cid, 'cut-and-put-back-after-comment-put-raised:' + e.__class__.__name__, f'now={now!r}\n{e!r}', {'accessor': 'comment'}, rep)
+            return
+        if live_vs_parse(root, 'Module') or O.dump(ast.parse(root.src)) != O.dump(ast.parse(now)) or O.comments(root.src) != O.comments(now):
+            res.fail(cid, 'cut-and-put-back-after-comment-put-changed-program', f'before={now!r}\nafter={root.src!r}', {'accessor': 'comment'}, rep)
+            return
     res.nontriv('cmt', ci, text)
     res.outcomes['cmt-ok'] += 1
 
